@@ -245,6 +245,16 @@ def oracle(scn) -> core.CaseResult:
             dead = {int(p) for p, a in zip(ibm["pid"], ibm["alive"]) if not a}
             res.check(not (dead & set(nxt_pos)), "kill_not_effective",
                       f"step {n}: particles {sorted(dead & set(nxt_pos))} killed before/at this step are in the next record")
+    # a particle the IBM (or the boundary) killed stays dead: it is alive in no later call and in no later record
+    gone: set = set()
+    for c in calls:
+        if len(c) > 6 and isinstance(c[6], dict) and "alive" in c[6]:
+            pid_, al_ = [int(p) for p in c[6]["pid"]], [bool(a) for a in c[6]["alive"]]
+            back = {p for p, a in zip(pid_, al_) if a} & gone
+            if not res.check(not back, "kill_undone",
+                             f"{c[1]}.{c[2]} at step {c[3]}: particles {sorted(back)} were dead earlier and are alive again"):
+                break
+            gone |= {p for p, a in zip(pid_, al_) if not a}
     # close exactly once per recorded module, after the last update
     last_upd = max([i for i, c in enumerate(calls) if c[2] in ("update", "write")], default=-1)
     for s in recorded:
